@@ -91,7 +91,7 @@ PROPS["C07"] = {
     "assumptions": DEC_ASSUME + ["AddressSanitizer build (-O1) of library and harness; symbol buffers are exact-size heap blocks ending at the end of their malloc block, pointer tables have exactly n resp. k entries", "blind spot: reads before a buffer start that stay inside the alignment padding (offsets 1..7)"],
     "claim": "the decoder explorations re-run under AddressSanitizer with exact-size application buffers and pristine-copy comparison after every call, plus symbol lengths 1..40,63,64,65 x alignments 0..7 and the parameter limits: no ASan report, no signal, no application buffer or table modified, in any explored state including release at every state",
     "runs": dec_runs("asan", "nbNz", "rs,ldpc", ["bfs", "lens", "large", "rows"]) + dec_runs("trk", "nb", "rs,ldpc", ["lens"]) + [lowrate_run("asan", "nb", 5, 6, False)],
-    "budget": {"quick": 900, "thorough": 7200},
+    "budget": {"quick": 900, "thorough": 5400},
 }
 PROPS["C08"] = {
     "level": "model_checking", "rule": DEC_RULE, "bounds": DEC_BOUNDS,
@@ -199,7 +199,7 @@ PROPS["C17"] = {
              {"name": "sparse-trk", "src": "h_sparse.c", "variant": "trk", "lib_defs": ["-DOPENFEC_VERIF_SPARSE_BLOCK=4"]},
              {"name": "sparse-big-trk", "src": "h_sparse_big.c", "variant": "trk"},
              {"name": "sparse-big-asan", "src": "h_sparse_big.c", "variant": "asan", "tiers": ["thorough"]}],
-    "budget": {"quick": 600, "thorough": 5400},
+    "budget": {"quick": 600, "thorough": 3600},
 }
 
 PROPS["C18"] = {
@@ -228,7 +228,7 @@ PROPS["C16"] = {
              {"name": "2d-subsets-trk", "src": "h_codec.c", "variant": "trk", "args": ["--mode", "subsets", "--codecs", "2d"]},
              {"name": "2d-lens-trk", "src": "h_codec.c", "variant": "trk", "args": ["--mode", "lens", "--codecs", "2d", "--cb", "n"]},
              {"name": "2d-lens-asan", "src": "h_codec.c", "variant": "asan", "args": ["--mode", "lens", "--codecs", "2d", "--cb", "n"], "tiers": ("thorough",)}],
-    "budget": {"quick": 600, "thorough": 5400},
+    "budget": {"quick": 600, "thorough": 3600},
 }
 
 PROPS["C09"] = {
